@@ -259,7 +259,10 @@ def rule_getters(ctx, crate, rule="R-POS-GETTERS"):
     ar = K.find_one(ctx, crate, rule, r"state::AtomicPosition::reset")
     if ar:
         cs = ar.calls(r"state::AtomicPosition::set")
-        ctx.check(bool(cs) and all(is_const(c.args[1], 0) for c in cs), rule, "reset-sets-zero", ar.name, K.fn_loc(ar), "reset stores position 0", "reset does not store 0", cfg)
+        # ... through the setter, or with a plain store of the constant 0 into the position atomic
+        direct = [c for c in ar.calls(r"portable_atomic::AtomicU64::(store|swap)") if ar.slice_args(c, [0]).has_field("pos", AP)]
+        ok = (bool(cs) and all(is_const(c.args[1], 0) for c in cs) and not direct) or (bool(direct) and not cs and all(is_const(c.args[1], 0) for c in direct))
+        ctx.check(ok, rule, "reset-sets-zero", ar.name, K.fn_loc(ar), "reset stores position 0", "reset does not store 0", cfg)
 
 
 POS_HISTORY_API = r"progress_bar::ProgressBar::(inc|dec|set_position|with_position|reset|finish\w*|abandon\w*|update|new\w*|no_length|reset_eta|reset_elapsed|with_draw_target|hidden|wrap_\w+|with_elapsed)"
